@@ -331,7 +331,9 @@ func TestReplay(t *testing.T) {
 		t.Fatalf("unknown engine %q", rf.Engine)
 	}
 	res := eng.Run(t, rf.Program, true)
-	same := res.Violation != nil && rf.Violation != nil && res.Violation.Oracle == rf.Violation.Oracle && res.Violation.Msg == rf.Violation.Msg
+	// same oracle at the same step (incidental wording, e.g. which of two error causes rosmar
+	// names first, may differ between executions of rosmar itself)
+	same := res.Violation != nil && rf.Violation != nil && res.Violation.Oracle == rf.Violation.Oracle && res.Violation.Step == rf.Violation.Step
 	out := map[string]any{"reproduced": same, "violation": res.Violation, "trouble": res.Trouble, "trace": res.Log}
 	if p := os.Getenv("VERIF_OUT"); p != "" {
 		writeJSONAtomic(p, out)
